@@ -1,9 +1,13 @@
 """
 C11 - Stream writes arrive in order, each byte once, and close waits for the buffer.
 
-The real `TCPServer` (one to three accepted connections, each with its own writes and close request), `TCPClient`, `UNIXClient` and `File`
-components are driven in-process: real `write` / `close` events and real poller `_write`
-events, flushed to quiescence after every op.  What is substituted (from outside, no hooks):
+The real `TCPServer` / `UNIXServer` (one to three accepted connections, each with its own writes and
+close request), `TCPClient`, `UNIXClient` and `File` components are driven in-process: real `write` /
+`close` events and real poller `_write` events, flushed to quiescence after every op.  A Server has
+two forms of the close request: `close(sock)` (op `c`) and the server-wide `close()` (op `C`, index
+-1), which is a close request on every connection accepted so far, at that point of its trace (the
+listening socket is not a stream endpoint; its disconnect is not attributed to any connection).  A
+connection may be accepted later (op `acc`, case key `late`): it has no close request pending.  What is substituted (from outside, no hooks):
 
   * the socket: `SockDouble`, a `socket.socket` subclass whose `send` follows the outcome
     the op carries (accept k bytes / raise errno) and records every call; closed -> EBADF,
@@ -20,14 +24,17 @@ evaluates the theorems' hypothesis `goodTable` on it.
 import errno
 import itertools
 import os
+import shutil
 import socket
+import tempfile
 import zlib
 
 from framework import Infra, ddmin, hx, unhx
 
 TRANSIENT = (11, 4, 105)      # EAGAIN/EWOULDBLOCK, EINTR, ENOBUFS (checked in params())
-KINDS = ('server', 'tcpclient', 'unixclient', 'file')
-MODEL_KIND = {'server': 'server', 'tcpclient': 'client', 'unixclient': 'client', 'file': 'file'}
+KINDS = ('server', 'unixserver', 'tcpclient', 'unixclient', 'file')
+SERVERS = ('server', 'unixserver')
+MODEL_KIND = {'server': 'server', 'unixserver': 'server', 'tcpclient': 'client', 'unixclient': 'client', 'file': 'file'}
 BIG = 1 << 40
 PROBE_DEFAULT = 9999          # an errno no table mentions
 
@@ -175,13 +182,14 @@ class Trace(list):
     def __init__(self, *a):
         super().__init__(*a)
         self.foreign = set()
-        self.multi = (0, False)
+        self.wide = set()      # positions of the events that happened during a server-wide close()
+        self.stats = {}
 
 
 class Endpoint:
     """one real component with `nconn` stream endpoints"""
 
-    def __init__(self, kind, nconn=1):
+    def __init__(self, kind, nconn=1, late=()):
         from circuits import Manager
         from circuits.core.pollers import _write
         from cutil import Capture, drain
@@ -192,16 +200,25 @@ class Endpoint:
         self.poller = make_poller().register(self.m)
         self.cap = Capture({'error', 'disconnect', 'disconnected', 'closed', 'exception'}).register(self.m)
         self.restore = []
-        if kind == 'server':
+        self.tmpdir = None
+        self.accepted = [True] * nconn
+        if kind in SERVERS:
             from circuits.net.events import close, write
-            from circuits.net.sockets import TCPServer
-            self.comp = TCPServer(('127.0.0.1', 0)).register(self.m)
+            from circuits.net.sockets import TCPServer, UNIXServer
+            if kind == 'server':
+                self.comp = TCPServer(('127.0.0.1', 0)).register(self.m)
+            else:
+                self.tmpdir = tempfile.mkdtemp(prefix='c11-')
+                self.comp = UNIXServer(os.path.join(self.tmpdir, 's')).register(self.m)
             drain(self.m)
             self.doubles = [SockDouble(i) for i in range(nconn)]
-            for d in self.doubles:
-                self.comp._on_accept_done(d)
+            self.accepted = [i not in late for i in range(nconn)]
+            for i, d in enumerate(self.doubles):
+                if self.accepted[i]:
+                    self.comp._on_accept_done(d)
             self._mk_write = lambda i, p: write(self.doubles[i], p)
             self._mk_close = lambda i: close(self.doubles[i])
+            self._mk_close_all = lambda: close()
         elif kind in ('tcpclient', 'unixclient'):
             from circuits.net.events import close, write
             from circuits.net.sockets import TCPClient, UNIXClient
@@ -236,18 +253,36 @@ class Endpoint:
     def interest(self, i):
         return self.poller.isWriting(self.handle(i))
 
+    def accept(self, i):
+        """the connection is accepted now (as Server._accept / the TLS handshake do when they are done)"""
+        self.comp._on_accept_done(self.doubles[i])
+        self._drain(self.m)
+        self.accepted[i] = True
+
     def _conn_of_event(self, name, args, default):
-        if self.kind == 'server' and args and isinstance(args[0], SockDouble) and name in ('error', 'disconnect'):
-            return args[0].ident
+        if self.kind in SERVERS and name in ('error', 'disconnect'):
+            if args and isinstance(args[0], SockDouble):
+                return args[0].ident
+            if name == 'disconnect':
+                return None       # the listening socket: not a stream endpoint
         return default
 
     def op(self, i, op, planned=None):
-        """execute one op on connection i; returns the event tokens (with real bytes) of this op"""
-        d = self.doubles[i]
+        """execute one op on connection i (server-wide close: on every accepted connection, i is
+        ignored); returns the event tokens (with real bytes) of this op per connection"""
+        wide = op[0] == 'C'
+        targets = [j for j in range(len(self.doubles)) if self.accepted[j]] if wide else [i]
+        d = None if wide else self.doubles[i]
         marks = [len(x.log) for x in self.doubles]
         cmark = len(self.cap.log)
         evs = {j: [] for j in range(len(self.doubles))}
-        if op[0] in ('w', 'wp'):
+        if wide:
+            if self.kind not in SERVERS:
+                raise Infra('server-wide close on a non-server endpoint')
+            for j in targets:
+                evs[j].append(('cr',))
+            self.m.fire(self._mk_close_all(), self.comp.channel)
+        elif op[0] in ('w', 'wp'):
             evs[i].append(('w', op))
             self.m.fire(self._mk_write(i, payload_of(op)), self.comp.channel)
         elif op[0] == 'c':
@@ -261,27 +296,36 @@ class Endpoint:
         try:
             self._drain(self.m)
         finally:
-            d.script.outcome = None
+            if d is not None:
+                d.script.outcome = None
         for j, x in enumerate(self.doubles):
             for rec in x.log[marks[j]:]:
                 if rec[0] != 'shutdown':
                     evs[j].append(rec)
         for name, args, _kw, _ch in self.cap.log[cmark:]:
-            j = self._conn_of_event(name, args, i)
-            if name == 'error':
-                evs[j].append(('e',))
-            elif name in ('disconnect', 'disconnected'):
-                evs[j].append(('d',))
-            elif name == 'closed':
-                # net `closed` (server shut down) is not a per-connection event; File's is
-                if self.kind == 'file':
+            j = self._conn_of_event(name, args, '*' if wide else i)
+            if j is None:
+                continue
+            # an event of a server-wide close that names no connection concerns all of them
+            for j in (targets if j == '*' else [j]):
+                if name == 'error':
+                    evs[j].append(('e',))
+                elif name in ('disconnect', 'disconnected'):
                     evs[j].append(('d',))
-            elif name == 'exception':
-                evs[j].append(('!', repr(args[:2])))
-        evs[i].append(('b', 1 if self.interest(i) else 0))
+                elif name == 'closed':
+                    # net `closed` (server shut down) is not a per-connection event; File's is
+                    if self.kind == 'file':
+                        evs[j].append(('d',))
+                elif name == 'exception':
+                    evs[j].append(('!', repr(args[:2])))
+        for j in targets:
+            evs[j].append(('b', 1 if self.interest(j) else 0))
         for j in evs:
-            if j != i:
-                self.traces[j].foreign.update(range(len(self.traces[j]), len(self.traces[j]) + len(evs[j])))
+            span = range(len(self.traces[j]), len(self.traces[j]) + len(evs[j]))
+            if j not in targets:
+                self.traces[j].foreign.update(span)
+            elif wide:
+                self.traces[j].wide.update(span)
             self.traces[j].extend(evs[j])
         return evs
 
@@ -298,11 +342,13 @@ class Endpoint:
                 os.close(fd)
             except (OSError, TypeError):
                 pass
-        if self.kind == 'server' and self.comp._sock is not None:
+        if self.kind in SERVERS and self.comp._sock is not None:
             try:
                 self.comp._sock.close()
             except OSError:
                 pass
+        if self.tmpdir:
+            shutil.rmtree(self.tmpdir, ignore_errors=True)
 
 
 # token forms --------------------------------------------------------------------------------
@@ -416,11 +462,33 @@ def run_impl(case):
     """returns (executed ops per connection as model lines, traces per connection)"""
     kind = case['kind']
     nconn = case.get('nconn', 1)
-    ep = Endpoint(kind, nconn)
+    ep = Endpoint(kind, nconn, tuple(case.get('late', ())))
     lines = [[] for _ in range(nconn)]
     perop = [[] for _ in range(nconn)]
+    stats = {'wide': 0, 'wide-buffered': 0, 'per-socket': 0, 'late': 0}
     try:
         def do(i, op):
+            if op[0] == 'acc':
+                if not ep.accepted[i]:
+                    ep.accept(i)
+                    stats['late'] += 1
+                return
+            if op[0] == 'C':
+                targets = [j for j in range(nconn) if ep.accepted[j]]
+                stats['wide'] += 1
+                stats['wide-buffered'] += sum(1 for j in targets if ep.interest(j))
+                evs = ep.op(None, op)
+                for j in range(nconn):
+                    if j in targets:
+                        lines[j].append('c')
+                        perop[j].append(evs[j])
+                    elif evs[j]:
+                        perop[j].append(('foreign', evs[j]))
+                return
+            if not ep.accepted[i]:
+                return            # an op on a connection that does not exist (yet): not executed
+            if op[0] == 'c':
+                stats['per-socket'] += 1
             planned = None
             if op[0] == 'p':
                 planned = ep.doubles[i].script.effective((op[1], op[2]))
@@ -467,7 +535,9 @@ def run_impl(case):
                     n += 1
                     if nconn > 1:
                         watch()
-        ep.traces[0].multi = (maxpend, done_order != [j for j in req_order if j in done_order])
+        stats['maxpend'] = maxpend
+        stats['crossed'] = done_order != [j for j in req_order if j in done_order]
+        ep.traces[0].stats = stats
         return lines, perop, ep.traces
     finally:
         ep.teardown()
@@ -484,6 +554,9 @@ def classify(case, conn, trace, clause):
         last_transient = None
         foreign = getattr(trace, 'foreign', ())
         for pos, rec in enumerate(trace):
+            if rec[0] == 'x' and pending and pos in getattr(trace, 'wide', ()):
+                # the server-wide form of the close request did not wait for this connection's buffer
+                return f'close-before-drain({kind},server-wide-close)'
             if rec[0] == 'x' and pending and pos in foreign:
                 # closed with bytes pending while the component was handling an op of another
                 # connection (whatever happened on this one before)
@@ -519,6 +592,8 @@ def classify(case, conn, trace, clause):
 def spec_of(ctx, kind, traces):
     lines = []
     for tr in traces:
+        if not tr:
+            tr = [('b', 0)]      # a connection that was never accepted (keeps the answers aligned)
         lines.append([f'kind {MODEL_KIND[kind]}', 'spec ' + ' '.join(tok_spec(r) for r in tr)])
     return [a[1] for a in ctx.driver.batch('stream', lines)]
 
@@ -560,6 +635,8 @@ def evaluate(ctx, cases):
         impl.append((lines, perop, traces))
         head = [f'kind {MODEL_KIND[case["kind"]]}', acts_line(case['kind'])]
         for i in range(len(lines)):
+            if not lines[i] and not traces[i]:
+                continue          # a connection that was never accepted: there is nothing to judge
             batch.append(head + lines[i] + ['spec ' + ' '.join(tok_spec(r) for r in traces[i])])
             index.append((ci, i))
     answers = ctx.driver.batch('stream', batch) if batch else []
@@ -574,7 +651,7 @@ def evaluate(ctx, cases):
         kind = MODEL_KIND[case['kind']]
         ok = True
         nontrivial = False
-        for i, ans in per_case[ci]:
+        for i, ans in per_case.get(ci, []):
             if ans[0] != 'ok' or ans[1] != 'ok':
                 raise Infra(f'driver refused kind/acts: {ans[:2]}')
             model_ops = ans[2:-1]
@@ -641,12 +718,21 @@ def evaluate(ctx, cases):
                 raise Infra(f'spec answer {verdict!r}')
             has_partial = any(r[0] == 'a' for r in tr) and any(r[0] == 'r' for r in tr)
             nontrivial = nontrivial or has_partial or ('x' in names and 'a' in names)
+        st = traces[0].stats
         if len(traces) > 1:
-            maxpend, crossed = traces[0].multi
+            maxpend, crossed = st['maxpend'], st['crossed']
             ctx.count('connections', len(traces))
             ctx.count('deferred-closes-pending-together', maxpend)
             if maxpend >= 2:
                 ctx.count('branch', 'deferred-closes-complete-' + ('out-of-request-order' if crossed else 'in-request-order'))
+        if case['kind'] in SERVERS:
+            ctx.count('close-request', 'server-wide close()', st['wide'])
+            ctx.count('close-request', 'close(sock)', st['per-socket'])
+            if st['wide']:
+                ctx.count('branch', 'server-wide-close-' + ('while-data-buffered' if st['wide-buffered'] else 'nothing-buffered'))
+                ctx.count('connections-with-buffered-data-at-server-wide-close', st['wide-buffered'])
+            if st['late']:
+                ctx.count('branch', 'connection-accepted-later')
         ctx.count('kind', case['kind'])
         ctx.count('ops', min(len(case['ops']) // 4 * 4, 40))
         ctx.case(case if len(str(case)) < 2000 else {'kind': case['kind'], 'note': 'large case', 'nops': len(case['ops'])},
@@ -668,11 +754,13 @@ def exhaustive_cases(ctx):
     alpha = SMALL_ALPHA if depth == 3 else [SMALL_ALPHA[i] for i in (0, 1, 2, 3, 4, 5, 6, 7, 10)]
     cases = []
     for kind in ('server', 'tcpclient', 'file'):   # UNIXClient shares Client's methods: random/huge/corpus only
+        # a Server has a second form of the close request, the server-wide close()
+        alpha_k = alpha + [['C']] if kind in SERVERS else alpha
         for n in range(1, depth + 1):
-            for tup in itertools.product(alpha, repeat=n):
+            for tup in itertools.product(alpha_k, repeat=n):
                 if not any(o[0] == 'w' for o in tup):
                     continue
-                cases.append({'kind': kind, 'ops': [[0] + o for o in tup]})
+                cases.append({'kind': kind, 'ops': [[-1 if o == ['C'] else 0] + o for o in tup]})
     return cases
 
 
@@ -719,16 +807,21 @@ def random_case(rng, kind, big, nconn=1):
     if rng.random() < 0.15:
         ops.append(['w', '7a7a'])
         ops.append(['p', 'a', BIG])
+    if kind in SERVERS:
+        # a Server has two forms of the close request: close(sock) and the server-wide close()
+        ops = [['C'] if o == ['c'] and rng.random() < 0.3 else o for o in ops]
     if nconn == 1:
-        return {'kind': kind, 'nconn': nconn, 'ops': [[0] + o for o in ops]}
+        return {'kind': kind, 'nconn': nconn, 'ops': [[-1 if o == ['C'] else 0] + o for o in ops]}
     # several connections: the ops above are dealt out at random; the close request (if any) goes
     # to one connection, and every OTHER connection gets a close request of its own at a random
     # position with probability 0.7 - deferred closes of several connections are pending together
-    out = [[rng.randrange(nconn)] + o for o in ops]
+    out = [([-1] if o == ['C'] else [rng.randrange(nconn)]) + o for o in ops]
     owners = {o[0] for o in out if o[1] == 'c'}
     for i in range(nconn):
         if i not in owners and rng.random() < 0.7:
             out.insert(rng.randint(0, len(out)), [i, 'c'])
+    if rng.random() < 0.3:
+        out.insert(rng.randint(0, len(out)), [-1, 'C'])
     return {'kind': kind, 'nconn': nconn, 'ops': out}
 
 
@@ -741,7 +834,7 @@ def random_cases(ctx):
         for _ in range(per_kind):
             cases.append(random_case(rng, kind, big))
     for k in range(60 * ctx.scale):
-        cases.append(random_case(rng, 'server', big, nconn=2 if k % 3 else 3))
+        cases.append(random_case(rng, SERVERS[k % 5 == 4], big, nconn=2 if k % 3 else 3))
     return cases
 
 
@@ -810,6 +903,105 @@ def directed_cases(ctx):
     return cases
 
 
+# the server-wide form of the close request -------------------------------------------------------
+
+WIDE_STATES = ('E', 'B', 'P', 'Q', 'T', 'X')
+#  state of a connection when the server-wide close() comes:
+#  E  nothing buffered (never written to)          B  one or two whole payloads buffered
+#  P  a partially sent payload buffered            Q  buffered + its own close(sock) already pending
+#  T  buffered, last send refused transiently      X  already closed by its own close(sock)
+
+
+def _wide_prefix(i, st, v):
+    a = hx(bytes([0x61 + 5 * i] * (3 + i)))
+    b = hx(bytes([0x62 + 5 * i] * (2 + v % 3)))
+    big = ['wp', 4097, 32 * i + v]
+    first = [i] + (big if (v + i) % 4 == 3 else ['w', a])
+    if st == 'E':
+        return []
+    if st == 'B':
+        return [first] + ([[i, 'w', b]] if v % 2 else [])
+    if st == 'P':
+        return [first, [i, 'w', b], [i, 'p', 'a', 1 + v % 2]]
+    if st == 'Q':
+        return [first, [i, 'c']]
+    if st == 'T':
+        return [first, [i, 'p', 'r', TRANSIENT[(i + v) % 3]]]
+    if st == 'X':
+        return [[i, 'c']]
+    raise Infra(st)
+
+
+def wide_case(kind, states, pos, v, late=False):
+    """Directed: `states[i]` is what connection i looks like when the server-wide close() comes;
+    pos = 'after' (all writes before it), 'between' (more writes after it) or 'before' (it comes
+    first: the connections are closed at once, the writes go to closed connections).  Afterwards
+    the connections are held back a little, one of them gets its own close(sock), and they drain
+    in forward or reverse order.  late = one more connection is accepted after the close()."""
+    n = len(states)
+    ops = []
+    pre = [o for i in range(n) for o in _wide_prefix(i, states[i], v)]
+    if pos == 'before':
+        ops.append([-1, 'C'])
+        ops += pre
+    else:
+        ops += pre
+        ops.append([-1, 'C'])
+    if pos == 'between':
+        for i in range(n):
+            ops.append([i, 'w', hx(bytes([0x7a - i] * (1 + (v + i) % 3)))])
+    total = n
+    case = {'kind': kind, 'nconn': n, 'ops': ops}
+    if late:
+        j = n
+        total = n + 1
+        case['nconn'] = total
+        case['late'] = [j]
+        ops.append([j, 'acc'])
+        ops.append([j, 'w', hx(bytes([0x4c] * 4))])
+        ops.append([j, 'w', hx(bytes([0x6c] * 3))])
+        if v % 2:
+            ops.append([j, 'p', 'a', 2])
+    for i in range(total):
+        ops.append([i, 'p', 'a', (v + i) % 2])
+        if (v + i) % 3 == 0:
+            ops.append([i, 'p', 'r', TRANSIENT[(v + i) % 3]])
+    ops.append([v % total, 'c'])
+    if v % 4 == 1:
+        ops.append([-1, 'C'])            # requested twice
+    order = list(range(total))
+    if v % 2:
+        order.reverse()
+    for i in order:
+        for q in range(3):
+            ops.append([i, 'p', 'a', BIG])
+            if total > 1:
+                ops.append([(i + 1) % total, 'p', 'a', q % 2])
+    return case
+
+
+def wide_cases(ctx):
+    """Same list in both tiers and for every seed."""
+    cases = []
+    v = 0
+    for kind in SERVERS:
+        for n in (1, 2, 3):
+            if n == 3 and kind != 'server':
+                continue
+            alphabet = WIDE_STATES if n < 3 else WIDE_STATES[:4]
+            for states in itertools.product(alphabet, repeat=n):
+                for pos in ('after', 'between', 'before'):
+                    for _rep in range(2):
+                        cases.append(wide_case(kind, states, pos, v))
+                        v += 1
+        for n in (1, 2):
+            for states in itertools.product(WIDE_STATES[:4], repeat=n):
+                for _rep in range(2):
+                    cases.append(wide_case(kind, states, 'after', v, late=True))
+                    v += 1
+    return cases
+
+
 def huge_cases(ctx):
     rng = ctx.rng
     size = (1 << 18) if ctx.tier == 'quick' else (1 << 21)
@@ -820,20 +1012,27 @@ def huge_cases(ctx):
             ops = [['wp', size, s1], ['p', 'a', size // 3], ['p', 'r', rng.choice(TRANSIENT)], ['w', '0102'],
                    ['p', 'a', rng.randrange(size // 2)], ['wp', size + 1, s2], ['c'], ['p', 'r', rng.choice(TRANSIENT)],
                    ['p', 'a', BIG], ['p', 'a', 5]]
-            cases.append({'kind': kind, 'ops': [[0] + o for o in ops]})
+            if kind == 'unixserver':
+                ops = [['C'] if o == ['c'] else o for o in ops]
+            cases.append({'kind': kind, 'ops': [[-1 if o == ['C'] else 0] + o for o in ops]})
     return cases
 
 
 def run(ctx):
     ctx.rule = ('exhaustive: every op sequence of length <=3 (quick; <=4 over 9 symbols thorough) over writes of 0/1/2 bytes, '
-                'close, writable with accept 0/1/all, EAGAIN, EINTR, ENOBUFS, EPIPE, ECONNRESET, for each of TCPServer '
-                'connection, TCPClient, File; random: 1-12 payloads (0..3, 4095-4097, 64 KiB, 256 KiB bytes), 30% '
-                'partial / 15% transient / 5% fatal outcomes, close at a random position, writes after close, all four kinds incl. UNIXClient, two '
+                'close (for the server both close(sock) and the server-wide close()), writable with accept 0/1/all, EAGAIN, EINTR, '
+                'ENOBUFS, EPIPE, ECONNRESET, for each of TCPServer connection, TCPClient, File; random: 1-12 payloads (0..3, 4095-4097, 64 KiB, 256 KiB bytes), 30% '
+                'partial / 15% transient / 5% fatal outcomes, close at a random position, writes after close, all five kinds incl. UNIXServer and UNIXClient, two '
                 'or three interleaved server connections, each with its own close request (70%); directed (both tiers, every seed): 2 and 3 '
                 'connections of one TCPServer, every assignment of roles (close while all is buffered / close after a partial send / '
                 'no close / close before the write) with at least two (one for 2 connections) deferred closes, every order of the '
                 'requests x every order in which the connections are allowed to drain, the others held back by partial accepts '
-                'and transient refusals; huge: 256 KiB (quick) / 2 MiB (thorough) payloads; every case ends with the poller '
+                'and transient refusals; directed-server-wide-close (both tiers, every seed): TCPServer with 1-3 and UNIXServer with 1-2 '
+                'connections, every combination of connection states at the moment of the server-wide close() (nothing buffered / whole '
+                'payloads buffered / partially sent payload / own close(sock) pending / just refused transiently / already closed), '
+                'close() before, between and after the writes, followed by a close(sock), optionally a second close(), a connection '
+                'accepted after the close(), drains in both orders; random server cases: 30% of the close requests are server-wide, '
+                'multi-connection cases get an extra close() with 30%, every fifth is a UNIXServer; huge: 256 KiB (quick) / 2 MiB (thorough) payloads; every case ends with the poller '
                 'reporting writable while writer interest lasts. non-trivial = a trace with accepted bytes and a refusal, or '
                 'accepted bytes and a close; distinct = distinct case')
     ctx.trusted += ['socket double: send accepts a prefix or raises OSError(errno); a closed socket raises EBADF; '
@@ -841,13 +1040,16 @@ def run(ctx):
                     'poller double = real BasePoller interest bookkeeping, never polls; `_write` events are fired by the harness',
                     'File: module global fd_write substituted; file object double (fileno() raises ValueError once closed)',
                     'accepted chunks are compared with the model by length+adler32; the spec receives the real bytes']
-    ctx.assumptions += ['OS consistency: no bytes are accepted on a socket after it raised a fatal errno, nor after close()',
+    ctx.assumptions += ['a server-wide close() is a close request on every connection accepted so far (what the property says '
+                        'about a close request is demanded of each of them separately); nothing is demanded of the listening '
+                        'socket, and a connection accepted afterwards has no close request pending',
+                        'OS consistency: no bytes are accepted on a socket after it raised a fatal errno, nor after close()',
                         'ops = write / close(endpoint) / poller _write; peer-initiated disconnects, reads, TLS and '
                         'unregistering are not part of this model (C12)',
                         'errno numbers are those of this platform (Linux)']
     params(ctx)
     corpus = ctx.corpus()
-    groups = [('corpus', corpus), ('directed', directed_cases(ctx)), ('exhaustive', exhaustive_cases(ctx)),
+    groups = [('corpus', corpus), ('directed', directed_cases(ctx)), ('directed-server-wide-close', wide_cases(ctx)), ('exhaustive', exhaustive_cases(ctx)),
               ('huge', huge_cases(ctx)), ('random', random_cases(ctx))]
     ctx.exhaustive = False
     for name, cases in groups:
